@@ -12,6 +12,7 @@ import glob
 import os
 
 from pestverif import refpeg
+from pestverif.runner import repo_root
 
 
 def S(*x):
@@ -380,13 +381,13 @@ def normalise(e):
 
 
 def bundled_grammar_files() -> list[str]:
-    files = sorted(glob.glob("/repo/tests/grammars/*.pest")) + sorted(glob.glob("/repo/examples/*/*.pest"))
+    files = sorted(glob.glob(repo_root() + "/tests/grammars/*.pest")) + sorted(glob.glob(repo_root() + "/examples/*/*.pest"))
     return files
 
 
 def selfcheck() -> str | None:
     """None if the transcription is a fix-point of meta.pest and recognises all bundled grammars."""
-    path = "/repo/tests/grammars/meta.pest"
+    path = repo_root() + "/tests/grammars/meta.pest"
     if not os.path.exists(path):
         return "tests/grammars/meta.pest is missing"
     text = open(path, encoding="utf-8").read()
